@@ -10,6 +10,8 @@ World (numeric ids <-> real names, never sent to the model):
 
 Programs (JSON):  ["op", name, args...] | ["block", [prog...]] | ["try", prog] | ["fail"]
   ops: put d v | ingest mode d | assoc d | untag d | cert d | insdim g | expand g | purge d | unstore d | emptytrash
+       | import d     (Butler.import_(directory=<top>/src, filename=<top>/export<d>.yaml, transfer="copy"): the export file holds
+                       the source repository's dataset of slot d with its dimension records, run and dataset type)
        | transfer d   (Butler.transfer_from(source, [ref of slot d], transfer="copy"); the SOURCE repository <top>/src holds
                        a dataset {"slot": d, "v": 200+d} for every slot, is shared read-only by all runs of a case, and
                        its own SQL traffic is not instrumented)
@@ -282,6 +284,9 @@ class World:
             finally:
                 INJ.suspend -= 1
             b.transfer_from(sb, [ref], transfer="copy")
+        elif name == "import":
+            srcdir = os.path.dirname(self.top)
+            b.import_(directory=os.path.join(srcdir, "src"), filename=os.path.join(srcdir, f"export{a[0]}.yaml"), transfer="copy")
         else:
             raise ValueError(f"unknown op {name}")
 
@@ -298,7 +303,7 @@ class World:
             # or Butler.transaction block) must leave everything as it was when the construct was entered
             # (the statement names Butler.transaction blocks and the additive operations put / ingest; insertDimensionData
             # failing at its second statement keeps its first row until the enclosing transaction ends -- not claimed)
-            watch = _additive(p[1]) and (p[1][0] == "block" or (p[1][0] == "op" and p[1][1] in ("put", "ingest", "transfer")))
+            watch = _additive(p[1]) and (p[1][0] == "block" or (p[1][0] == "op" and p[1][1] in ("put", "ingest", "transfer", "import")))
             before = self.light() if watch else None
             try:
                 self.run_prog(p[1])
@@ -469,7 +474,7 @@ def build_base(top, pre):
 
 def _uses_transfer(p):
     if p[0] == "op":
-        return p[1] == "transfer"
+        return p[1] in ("transfer", "import")
     if p[0] == "block":
         return any(_uses_transfer(q) for q in p[1])
     if p[0] == "try":
@@ -484,8 +489,10 @@ def build_source(top):
     fixture.add_instrument(b, name="I0", detectors=range(NSLOT), filters=())
     fixture.add_dataset_type(b, "dt", is_calibration=True)
     b.registry.registerRun("run")
-    for d in range(NSLOT):
-        b.put({"slot": d, "v": 200 + d}, "dt", {"instrument": "I0", "detector": d}, run="run")
+    refs = [b.put({"slot": d, "v": 200 + d}, "dt", {"instrument": "I0", "detector": d}, run="run") for d in range(NSLOT)]
+    for d, ref in enumerate(refs):
+        with b.export(filename=os.path.join(top, f"export{d}.yaml"), transfer=None) as ex:
+            ex.saveDatasets([ref])
     b._registry._db._engine.dispose()
 
 
